@@ -90,6 +90,7 @@ def run(ck):
     histories(ck)
     inputs, outs = t1.run(ck)
     parsetie.record(ck, [t for _, t in inputs], outs, "C14: node ids handed out by the parser, speculative parses included")
+    parsetie.tree_violations(ck, [t for _, t in inputs], "C14")
     others = [m for m in mm if m["part"] not in ("validity", "wellformed", "tree")]
     if others and not [v for v in ck.violations if not v["no_input"]]:
         ck.report("corr:T2", "the model of the node tree / code generator no longer matches the real expansion (%d inputs differ)" % len(others),
